@@ -100,6 +100,8 @@ pub struct Profile {
     pub small_start_permille: u64,
     /// construct through `DelaunayTriangulationBuilder::toroidal` / `toroidal_periodic` (C16)
     pub toroidal: bool,
+    /// see `Gen::preset_incident_permille`
+    pub preset_incident_permille: u64,
 }
 
 impl Default for Profile {
@@ -120,6 +122,7 @@ impl Default for Profile {
             legal_bias_permille: 0,
             small_start_permille: 0,
             toroidal: false,
+            preset_incident_permille: 0,
             tick_limit: 0,
         }
     }
@@ -251,6 +254,7 @@ pub fn run<K: SimKernel<D>, const D: usize>(
     let mut gener = Gen::new(rs, D, &header.family, profile.thorough);
     gener.nonfinite_permille = profile.nonfinite_permille;
     gener.legal_bias_permille = profile.legal_bias_permille;
+    gener.preset_incident_permille = profile.preset_incident_permille;
     if let Some(tune) = profile.tune {
         let mut r = Rng::sub(rs, "tune", 0);
         tune(&mut gener.weights, &mut r, D);
